@@ -100,8 +100,12 @@ def run_rust(ctx, reqs, work):
                         r.loc = p[3]
                         r.msg = p[4]
     for d in res.deaths:
+        what = _req_text(reqs[d["idx"]]) if d.get("idx") is not None and d["idx"] < len(reqs) else "?"
         ctx.violation("c08:child-death:rc=%s" % d["rc"], "harness child died (rc=%s) on request %s: %s" % (
-            d["rc"], d["input"], d["log"][-400:]), files={"request.tsv": d["input"]})
+            d["rc"], what, d["log"][-400:]), files={"request.txt": what})
+    missing = sum(1 for r in reqs if r.status is None)
+    if missing:
+        ctx.inconc("%d requests were not answered by the Rust harness" % missing)
     for s in res.timeouts:
         ctx.inconc("rust harness shard %d hit the wall-clock watchdog" % s)
     return res
@@ -535,7 +539,7 @@ def dora_build(ctx, methods):
     return out, ids, ""
 
 
-def run_dora_requests(ctx, exe, ids, reqs):
+def run_dora_requests(ctx, exe, ids, reqs, singles):
     from concurrent.futures import ThreadPoolExecutor
     enum_code = {"SH": A.SHIFTS, "EXT": A.EXTENDS, "C": A.CONDS}
     env = dict(os.environ)
@@ -557,7 +561,9 @@ def run_dora_requests(ctx, exe, ids, reqs):
 
     byidx = {r.idx: r for r in reqs}
     refused_cls = {}
-    per_class = int(ctx.opts.get("dora_refusals_per_class", 2))
+    state = {"refusals": 0}
+    budget = int(ctx.opts.get("dora_refusals", ctx.pick(300, 2500)))
+    per_class = int(ctx.opts.get("dora_refusals_per_class", ctx.pick(1, 2)))
 
     def cls(r):
         return (r.name, A.shape(r.meth.kinds, r.ops))
@@ -571,6 +577,9 @@ def run_dora_requests(ctx, exe, ids, reqs):
             batch = []
             for r in chunk:
                 if r.status is not None:
+                    continue
+                if r.pred is False and state["refusals"] >= budget:
+                    r.status = "notrun"
                     continue
                 if refused_cls.get(cls(r), 0) >= per_class:
                     r.status = "notrun"
@@ -615,11 +624,17 @@ def run_dora_requests(ctx, exe, ids, reqs):
                     r.loc = "exit %s" % rc
                     r.msg = (first[0] if first else "")[:120]
                     refused_cls[cls(r)] = refused_cls.get(cls(r), 0) + 1
+                    if r.pred is False:
+                        state["refusals"] += 1
         return procs
 
     n = max(1, core.NCPU)
-    size = 250
+    size = 400
     chunks = [reqs[k:k + size] for k in range(0, len(reqs), size)]
+    # requests expected to be refused end their process: small chunks so that they spread over the workers
+    chunks += [singles[k:k + 6] for k in range(0, len(singles), 6)]
+    for r in singles:
+        byidx[r.idx] = r
     with ThreadPoolExecutor(max_workers=n) as ex:
         procs = sum(ex.map(worker, chunks))
     ctx.count("dora_processes", procs)
@@ -669,18 +684,32 @@ def run_dora(ctx, work):
     illegal = [r for r in reqs if likely_refused(r)]
     rng = ctx.rng("dora-illegal-sample")
     rng.shuffle(illegal)
+    # order: round-robin over the methods, a new operand-shape class each round; the driver stops running them when
+    # its budget of actual refusals is used up (an accepted request costs nothing)
+    per_method = {}
     seen = set()
-    first, rest = [], []
+    rest = []
     for r in illegal:
         k = (r.name, A.shape(r.meth.kinds, r.ops))
-        (rest if k in seen else first).append(r)
-        seen.add(k)
-    budget = int(ctx.opts.get("dora_illegal", ctx.pick(1500, 8000)))
-    chosen = (first + rest)[:budget]
+        if k in seen:
+            rest.append(r)
+        else:
+            seen.add(k)
+            per_method.setdefault(r.name, []).append(r)
+    chosen = []
+    rnd = 0
+    while True:
+        row = [v[rnd] for v in per_method.values() if len(v) > rnd]
+        if not row:
+            break
+        chosen += row
+        rnd += 1
+    chosen += rest
+    for r in chosen:
+        r.pred = False       # scheduling class: refusal expected
     ctx.count("dora_refusal_expected_generated", len(illegal))
-    ctx.count("dora_refusal_expected_run", len(chosen))
+    run_dora_requests(ctx, exe, ids, legal, chosen)
     reqs = legal + chosen
-    run_dora_requests(ctx, exe, ids, reqs)
     for r in reqs:
         if r.status == "crash":
             ctx.violation("c08:dora.%s:crash-%s" % (r.name, r.loc.replace(" ", "-")),
